@@ -422,19 +422,23 @@ Proof.
 Qed.
 
 (* ================= 3. promptness ================= *)
+Lemma alive_cases st : alive st = true -> st = LRun \/ st = LShut.
+Proof. destruct st; simpl; auto; discriminate. Qed.
+
 Definition adv_guard_at (s : state) (t : N) (cr : crec) : Prop :=
-  alive (lp s (cloop cr)) = true ->
-  suspended (cpc cr) = true
-  /\ (forall i e, cpc cr = PComp i e -> ccanc cr = false)
-  /\ (forall e dl, cpc cr = PWait e dl ->
-        ccanc cr = false /\ isset s e = false /\ (now s < dl)%N /\ (t <= dl)%N)
-  /\ (forall l e dl xd xs, cpc cr = PWaitX l e dl xd xs ->
-        ccanc cr = false /\ xd = None /\ (isset s e = false \/ alive (lp s l) = false)
-        /\ (now s < dl)%N /\ (t <= dl)%N).
+  (lp s (cloop cr) = LShut -> done_or_unstarted (cpc cr) = true)
+  /\ (lp s (cloop cr) = LRun ->
+      suspended (cpc cr) = true
+      /\ (forall i e, cpc cr = PComp i e -> ccanc cr = false)
+      /\ (forall e dl, cpc cr = PWait e dl ->
+            ccanc cr = false /\ isset s e = false /\ (now s < dl)%N /\ (t <= dl)%N)
+      /\ (forall l e dl xd xs, cpc cr = PWaitX l e dl xd xs ->
+            ccanc cr = false /\ xd = None /\ (isset s e = false \/ alive (lp s l) = false)
+            /\ (now s < dl)%N /\ (t <= dl)%N)).
 
 Lemma blocked_guard s t cr : blocked s t cr = true -> adv_guard_at s t cr.
 Proof.
-  unfold blocked, adv_guard_at. intros H Ha. rewrite Ha in H.
+  unfold blocked, adv_guard_at. intros H. split; intros Ha; rewrite Ha in H; [exact H|].
   destruct (cpc cr) eqn:Hp; try discriminate H; simpl; (split; [reflexivity|]);
     repeat split; try discriminate; intros.
   all: try match goal with Hq : _ = _ |- _ => injection Hq as <- <- end.
@@ -583,8 +587,11 @@ Proof.
       assert (He : ended s = false) by (eapply live_not_ended; [eauto|rewrite Hr; reflexivity]).
       eexists. split; [apply step_get_wait; auto|reflexivity].
       destruct Hw as [(e & Hp) | (l & e & xd & xs & Hp)]; [left|right]; eauto 10.
-    + intros Ha t s' Hs. apply adv_guard in Hs as (_ & _ & Hb). specialize (Hb c cr Hg Ha).
-      destruct Hb as (_ & _ & Hb1 & Hb2).
+    + intros Ha t s' Hs. apply adv_guard in Hs as (_ & _ & Hb). specialize (Hb c cr Hg).
+      destruct Hb as (Hsh & Hb). destruct (alive_cases _ Ha) as [Hrun | Hshut].
+      2:{ specialize (Hsh Hshut). exfalso.
+          destruct Hw as [(e & Hp) | (l & e & xd & xs & Hp)]; rewrite Hp in Hsh; discriminate. }
+      destruct (Hb Hrun) as (_ & _ & Hb1 & Hb2).
       destruct Hw as [(e & Hp) | (l & e & xd & xs & Hp)].
       * apply (Hb1 _ _ Hp).
       * apply (Hb2 _ _ _ _ _ Hp).
@@ -775,9 +782,6 @@ Definition progress_event (s : state) (e : ev) : bool :=
 
 Definition can_progress (s : state) : Prop := exists e, enabled s e /\ progress_event s e = true.
 
-Lemma alive_cases st : alive st = true -> st = LRun \/ st = LShut.
-Proof. destruct st; simpl; auto; discriminate. Qed.
-
 Lemma holder_progress s h : Inv s -> LInv s -> lock s = Some h -> can_progress s.
 Proof.
   intros I LI Hl. destruct (lL s LI h Hl) as (cr & Hg & Hk).
@@ -801,11 +805,11 @@ Proof.
   - simpl. rewrite Hg, Hc, Hl. reflexivity.
 Qed.
 
-Lemma not_blocked_progress s c cr : Inv s -> LInv s -> lock s = None -> getc s c = Some cr ->
-  blocked s (now s) cr = false -> can_progress s.
+Lemma not_blocked_run s c cr : Inv s -> LInv s -> lock s = None -> getc s c = Some cr ->
+  lp s (cloop cr) = LRun -> blocked s (now s) cr = false -> can_progress s.
 Proof.
-  intros I LI Hl Hg Hb. unfold blocked in Hb.
-  destruct (alive (lp s (cloop cr))) eqn:Ha; [|discriminate].
+  intros I LI Hl Hg Hrun Hb. unfold blocked in Hb. rewrite Hrun in Hb.
+  assert (Ha : alive (lp s (cloop cr)) = true) by (rewrite Hrun; reflexivity).
   assert (He : ended s = false) by (eapply live_not_ended; eauto).
   assert (HB : locked_pc (cpc cr) = true -> False).
   { intros Hk. rewrite (iB s I _ _ Hg Hk) in Hl. discriminate. }
@@ -848,9 +852,45 @@ Proof.
   - exists (Done c (fst (enc o)) (snd (enc o)) (now s)). split; [|reflexivity]. eapply en_done_fin; eauto.
 Qed.
 
-(* the earliest deadline among the waiters on live loops *)
+Lemma shut_progress s c cr : Inv s -> LInv s -> lock s = None -> getc s c = Some cr ->
+  lp s (cloop cr) = LShut -> done_or_unstarted (cpc cr) = false -> can_progress s.
+Proof.
+  intros I LI Hl Hg Hsh Hd.
+  assert (Ha : alive (lp s (cloop cr)) = true) by (rewrite Hsh; reflexivity).
+  assert (He : ended s = false) by (eapply live_not_ended; eauto).
+  assert (HB : locked_pc (cpc cr) = true -> False).
+  { intros Hk. rewrite (iB s I _ _ Hg Hk) in Hl. discriminate. }
+  assert (HC : run_pc (cpc cr) = true -> False).
+  { intros Hk. rewrite (iC s I c cr Hg Hk) in Hsh. discriminate. }
+  destruct (cpc cr) eqn:Hp; try discriminate Hd; try (exfalso; apply HB; reflexivity);
+    try (exfalso; apply HC; reflexivity).
+  - destruct (ccanc cr) eqn:Hx.
+    + destruct (lI s LI _ _ _ _ Hg Hp) as (ir & Hi & Hc & Hll & Hs & Hr).
+      exists (IEnd i 2 (now s)). split; [|reflexivity]. eapply en_iend_canc; eauto.
+    + eapply cancel_progress; eauto; rewrite Hp; reflexivity.
+  - exists (Acq (cloop cr) c). split; [|reflexivity]. eapply en_acq_fin; eauto.
+  - destruct (ccanc cr) eqn:Hx.
+    + exists (Done c 2 0 (now s)). split; [|reflexivity]. eapply en_done_canc; eauto. left. eauto.
+    + eapply cancel_progress; eauto; rewrite Hp; reflexivity.
+  - destruct (ccanc cr) eqn:Hx.
+    + exists (Done c 2 0 (now s)). split; [|reflexivity]. eapply en_done_canc; eauto. right. eauto 10.
+    + eapply cancel_progress; eauto; rewrite Hp; reflexivity.
+  - exists (Done c (fst (enc o)) (snd (enc o)) (now s)). split; [|reflexivity]. eapply en_done_fin; eauto.
+Qed.
+
+Lemma not_blocked_progress s c cr : Inv s -> LInv s -> lock s = None -> getc s c = Some cr ->
+  blocked s (now s) cr = false -> can_progress s.
+Proof.
+  intros I LI Hl Hg Hb. destruct (lp s (cloop cr)) eqn:Hlp.
+  - eapply not_blocked_run; eauto.
+  - unfold blocked in Hb. rewrite Hlp in Hb. discriminate.
+  - eapply shut_progress; eauto. unfold blocked in Hb. rewrite Hlp in Hb. exact Hb.
+  - unfold blocked in Hb. rewrite Hlp in Hb. discriminate.
+Qed.
+
+(* the earliest deadline among the waiters on running loops *)
 Definition wdl (s : state) (cr : crec) : option N :=
-  if alive (lp s (cloop cr)) then dl_of (cpc cr) else None.
+  match lp s (cloop cr) with LRun => dl_of (cpc cr) | _ => None end.
 
 Fixpoint mindl (s : state) (l : list crec) (acc : N) : N :=
   match l with
@@ -879,7 +919,7 @@ Qed.
 
 Lemma blocked_now_dl s cr dl : blocked s (now s) cr = true -> wdl s cr = Some dl -> (now s < dl)%N.
 Proof.
-  unfold blocked, wdl. destruct (alive (lp s (cloop cr))); [|discriminate].
+  unfold blocked, wdl. destruct (lp s (cloop cr)); try discriminate.
   destruct (cpc cr); simpl; try discriminate; intros H Hd; injection Hd as <-.
   all: repeat match goal with Hq : (_ && _) = true |- _ => apply andb_prop in Hq; destruct Hq end.
   all: match goal with Hq : (_ <? _)%N = true |- _ => apply N.ltb_lt in Hq; exact Hq end.
@@ -888,7 +928,7 @@ Qed.
 Lemma blocked_mono s t cr : blocked s (now s) cr = true ->
   (forall dl, wdl s cr = Some dl -> (t <= dl)%N) -> blocked s t cr = true.
 Proof.
-  unfold blocked, wdl. destruct (alive (lp s (cloop cr))); [|reflexivity].
+  unfold blocked, wdl. destruct (lp s (cloop cr)); auto.
   destruct (cpc cr); simpl; try discriminate; auto; intros H Hd.
   all: specialize (Hd _ eq_refl); apply N.leb_le in Hd; rewrite Hd.
   all: repeat match goal with Hq : (_ && _) = true |- _ => apply andb_prop in Hq; destruct Hq end.
@@ -930,20 +970,20 @@ Proof.
   destruct (lock s) as [h|] eqn:Hl; [eapply holder_progress; eauto|].
   destruct (forallb (blocked s (now s)) (callers s)) eqn:Hb.
   2:{ apply forallb_false_nth in Hb as (n & x & Hn & Hx). eapply not_blocked_progress; eauto. }
-  pose proof (forallb_nth _ _ _ _ Hb Hg) as Hc. pose proof Hc as Hc'. unfold blocked in Hc. rewrite Ha in Hc.
+  pose proof (forallb_nth _ _ _ _ Hb Hg) as Hc. pose proof Hc as Hc'. unfold blocked in Hc.
+  destruct (alive_cases _ Ha) as [Hrun | Hsh]; [|rewrite Hsh in Hc; congruence].
+  rewrite Hrun in Hc.
   destruct (cpc cr) eqn:Hp; try discriminate Hc; try discriminate Hd.
   - (* an uncancelled computation *)
     apply negb_true_iff in Hc.
     destruct (lI s LI _ _ _ _ Hg Hp) as (ir & Hi & Hic & Hll & Hs & Hr).
-    destruct (alive_cases _ Ha) as [Hrun | Hsh].
-    + exists (IEnd i 0 (now s)). split; [|reflexivity]. eapply en_iend_live; eauto.
-    + eapply cancel_progress; eauto; rewrite Hp; reflexivity.
+    exists (IEnd i 0 (now s)). split; [|reflexivity]. eapply en_iend_live; eauto.
   - (* a waiter: the clock may move to the earliest deadline *)
-    assert (Hw : wdl s cr = Some dl) by (unfold wdl; rewrite Ha, Hp; reflexivity).
+    assert (Hw : wdl s cr = Some dl) by (unfold wdl; rewrite Hrun, Hp; reflexivity).
     pose proof (blocked_now_dl _ _ _ Hc' Hw) as Hlt.
     destruct (adv_progress s dl He Hl Hb Hlt) as (t & Ht & _ & Hen).
     exists (Adv t). split; [assumption|]. simpl. apply N.ltb_lt. assumption.
-  - assert (Hw : wdl s cr = Some dl) by (unfold wdl; rewrite Ha, Hp; reflexivity).
+  - assert (Hw : wdl s cr = Some dl) by (unfold wdl; rewrite Hrun, Hp; reflexivity).
     pose proof (blocked_now_dl _ _ _ Hc' Hw) as Hlt.
     destruct (adv_progress s dl He Hl Hb Hlt) as (t & Ht & _ & Hen).
     exists (Adv t). split; [assumption|]. simpl. apply N.ltb_lt. assumption.
